@@ -742,12 +742,14 @@ theorem stepFollower_term {r r' : Raft} {m : Message} {e : Option RaftError}
   · cases h; exact Or.inl rfl
 
 /-- `step_candidate` (raft.rs:2320): the term moves only when a pre-candidate polls a pre-vote
-response that makes the tally `Won` -/
+response that makes the tally `Won`; since fix F16 a *granted* response is polled only if it carries
+the term of this pre-campaign, `m.term = r.term + 1` (any other grant is ignored) -/
 theorem stepCandidate_term {r r' : Raft} {m : Message} {e : Option RaftError}
     (h : r.stepCandidate m = .ok (r', e)) :
     r'.term = r.term ∨
     (r.state = .preCandidate ∧ m.msgType = .msgRequestPreVoteResponse ∧ r'.term = r.term + 1 ∧
-      (r.prs.recordVote m.frm (!m.reject)).tallyVotes.2.2 = .won) := by
+      (r.prs.recordVote m.frm (!m.reject)).tallyVotes.2.2 = .won ∧
+      (m.reject = true ∨ m.term = r.term + 1)) := by
   have hbf : ∀ l, (r.becomeFollower m.term l).state = .follower := fun l =>
     (becomeFollower_proj r m.term l).1
   unfold Raft.stepCandidate at h
@@ -785,43 +787,61 @@ theorem stepCandidate_term {r r' : Raft} {m : Message} {e : Option RaftError}
     split at h
     · cases h; exact Or.inl rfl
     · rename_i hc
-      rw [Res.bind_eq_ok_iff] at h
-      obtain ⟨⟨r1, res⟩, h1, h2⟩ := h
-      simp only at h2
-      rw [Res.bind_eq_ok_iff] at h2
-      obtain ⟨r2, h3, h4⟩ := h2
-      cases h4
-      have e2 : r'.term = r1.term := (maybeCommitByVote_term_vote r1 r' m h3).1
-      obtain ⟨p1, p2⟩ := poll_term h1
-      rcases p2 with ⟨a, b, c⟩ | ⟨c, _⟩
-      · right
-        have hm : m.msgType = .msgRequestPreVoteResponse := by
-          rcases hty with hty | hty
-          · exact hty
-          · exfalso; apply hc; left; exact ⟨b, by rw [hty]; decide⟩
-        exact ⟨b, hm, e2.trans c, by rw [← a]; exact p1.symm⟩
-      · exact Or.inl (e2.trans c)
+      split at h
+      · cases h; exact Or.inl rfl
+      · rename_i hf
+        rw [Res.bind_eq_ok_iff] at h
+        obtain ⟨⟨r1, res⟩, h1, h2⟩ := h
+        simp only at h2
+        rw [Res.bind_eq_ok_iff] at h2
+        obtain ⟨r2, h3, h4⟩ := h2
+        cases h4
+        have e2 : r'.term = r1.term := (maybeCommitByVote_term_vote r1 r' m h3).1
+        obtain ⟨p1, p2⟩ := poll_term h1
+        rcases p2 with ⟨a, b, c⟩ | ⟨c, _⟩
+        · right
+          have hm : m.msgType = .msgRequestPreVoteResponse := by
+            rcases hty with hty | hty
+            · exact hty
+            · exfalso; apply hc; left; exact ⟨b, by rw [hty]; decide⟩
+          refine ⟨b, hm, e2.trans c, by rw [← a]; exact p1.symm, ?_⟩
+          cases hrj : m.reject
+          · right
+            apply Decidable.byContradiction
+            intro hne
+            exact hf ⟨b, hrj, fun hh => hne hh.2⟩
+          · exact Or.inl rfl
+        · exact Or.inl (e2.trans c)
   · rename_i hty0
     have hty : m.msgType = .msgRequestPreVoteResponse ∨ m.msgType = .msgRequestVoteResponse := Or.inr hty0
     split at h
     · cases h; exact Or.inl rfl
     · rename_i hc
-      rw [Res.bind_eq_ok_iff] at h
-      obtain ⟨⟨r1, res⟩, h1, h2⟩ := h
-      simp only at h2
-      rw [Res.bind_eq_ok_iff] at h2
-      obtain ⟨r2, h3, h4⟩ := h2
-      cases h4
-      have e2 : r'.term = r1.term := (maybeCommitByVote_term_vote r1 r' m h3).1
-      obtain ⟨p1, p2⟩ := poll_term h1
-      rcases p2 with ⟨a, b, c⟩ | ⟨c, _⟩
-      · right
-        have hm : m.msgType = .msgRequestPreVoteResponse := by
-          rcases hty with hty | hty
-          · exact hty
-          · exfalso; apply hc; left; exact ⟨b, by rw [hty]; decide⟩
-        exact ⟨b, hm, e2.trans c, by rw [← a]; exact p1.symm⟩
-      · exact Or.inl (e2.trans c)
+      split at h
+      · cases h; exact Or.inl rfl
+      · rename_i hf
+        rw [Res.bind_eq_ok_iff] at h
+        obtain ⟨⟨r1, res⟩, h1, h2⟩ := h
+        simp only at h2
+        rw [Res.bind_eq_ok_iff] at h2
+        obtain ⟨r2, h3, h4⟩ := h2
+        cases h4
+        have e2 : r'.term = r1.term := (maybeCommitByVote_term_vote r1 r' m h3).1
+        obtain ⟨p1, p2⟩ := poll_term h1
+        rcases p2 with ⟨a, b, c⟩ | ⟨c, _⟩
+        · right
+          have hm : m.msgType = .msgRequestPreVoteResponse := by
+            rcases hty with hty | hty
+            · exact hty
+            · exfalso; apply hc; left; exact ⟨b, by rw [hty]; decide⟩
+          refine ⟨b, hm, e2.trans c, by rw [← a]; exact p1.symm, ?_⟩
+          cases hrj : m.reject
+          · right
+            apply Decidable.byContradiction
+            intro hne
+            exact hf ⟨b, hrj, fun hh => hne hh.2⟩
+          · exact Or.inl rfl
+        · exact Or.inl (e2.trans c)
   · cases h; exact Or.inl rfl
 
 /-- the preamble lets the dispatch run either on the unchanged state or on
@@ -859,7 +879,8 @@ def selfQuorum (r : Raft) : Prop :=
 /-- the ways the dispatch part of `step` (everything after the term preamble) can move the term -/
 def Campaigned (r r' : Raft) (m : Message) : Prop :=
   (r.state = .preCandidate ∧ m.msgType = .msgRequestPreVoteResponse ∧ r'.term = r.term + 1 ∧
-    (r.prs.recordVote m.frm (!m.reject)).tallyVotes.2.2 = .won) ∨
+    (r.prs.recordVote m.frm (!m.reject)).tallyVotes.2.2 = .won ∧
+    (m.reject = true ∨ m.term = r.term + 1)) ∨
   ((m.msgType = .msgHup ∨ (m.msgType = .msgTimeoutNow ∧ r.state = .follower)) ∧
     r'.term = r.term + 1 ∧ r.state ≠ .leader ∧ r.promotable = true ∧
     (m.msgType = .msgTimeoutNow ∨ r.preVote = false ∨ selfQuorum r))
@@ -925,7 +946,10 @@ can raise the term, for every state and every message.  If `r.step m = Ok` and t
   response (raft.rs:1386-1398), and the new term is `m.term` (or `m.term + 1` when the message is itself
   a campaign trigger, `MsgTimeoutNow` / `MsgHup`, stepped after `become_follower(m.term)`); or
 * (b) **it won the pre-vote**: it was a `PreCandidate`, `m` is a pre-vote response whose recording
-  makes the tally `Won`, and the new term is `r.term + 1` (the real campaign, raft.rs:2281-2318); or
+  makes the tally `Won`, and the new term is `r.term + 1` (the real campaign, raft.rs:2281-2318);
+  since fix F16 the response, if it is a grant, carries exactly `m.term = r.term + 1` — a grant of
+  any other term (left over from an earlier pre-campaign) is not counted
+  (`C16_stale_prevote_grant_ignored`); or
 * (c) **it was asked to campaign**: `m` is `MsgHup` or `MsgTimeoutNow`, the node is a promotable
   non-leader, the new term is `r.term + 1`, and — this is the pre-vote guarantee — for `MsgHup` either
   `pre_vote` is off or the node's own pre-vote is already a quorum (single-voter configuration);
@@ -970,18 +994,21 @@ theorem C16_term_raised_only_by_higher_term_message_or_won_prevote (r r' : Raft)
 response carries the *future* term `m.term = r.term + 1` of the campaign it answers; `step` never
 adopts it (raft.rs:1386-1398).  Whatever the role, the term either stays, or the node is a
 `PreCandidate`, the grant completes the pre-vote quorum (`tally_votes` = `Won` after recording it),
-and the real campaign starts at exactly `r.term + 1` — never at `m.term`. -/
+and the real campaign starts at exactly `r.term + 1`.  Since fix F16 the grant that is counted is
+the answer to *this* pre-campaign, `m.term = r.term + 1` (before the fix the statement had no such
+conjunct: a grant of any term `≥ r.term` was counted). -/
 theorem C16_granted_prevote_response_keeps_term (r r' : Raft) (m : Message) (res : Option RaftError)
     (hm : m.msgType = .msgRequestPreVoteResponse) (hg : m.reject = false)
     (h : r.step m = .ok (r', res)) :
     r'.term = r.term ∨
-    (r.state = .preCandidate ∧ r'.term = r.term + 1 ∧
+    (r.state = .preCandidate ∧ r'.term = r.term + 1 ∧ m.term = r.term + 1 ∧
       (r.prs.recordVote m.frm true).tallyVotes.2.2 = .won) := by
   by_cases hlt : r.term < r'.term
   · rcases C16_term_raised_only_by_higher_term_message_or_won_prevote r r' m res h hlt with
-      ⟨_, _, c, _⟩ | ⟨c1, _, c3, c4⟩ | ⟨c, _⟩
+      ⟨_, _, c, _⟩ | ⟨c1, _, c3, c4, c5⟩ | ⟨c, _⟩
     · exact absurd ⟨hm, hg⟩ c
-    · right; rw [hg] at c4; exact ⟨c1, c3, c4⟩
+    · right; rw [hg] at c4 c5
+      exact ⟨c1, c3, c5.resolve_left (by decide), c4⟩
     · rw [hm] at c; rcases c with c | ⟨c, _⟩ <;> cases c
   · left
     -- the term never decreases here: the preamble keeps `r` (no `become_follower` for a grant)
@@ -1019,6 +1046,60 @@ theorem C16_granted_prevote_response_ignored (r : Raft) (m : Message)
     cases hst : r.state <;>
       simp [h0, hlt, this, hm, hst, Raft.stepFollower, Raft.stepCandidate, Raft.stepLeader] at hs ⊢
 
+/-- **C16 (2), pre-candidates: `stale_prevote_grant_ignored`** (fix F16).  A granted pre-vote
+response answers the pre-campaign of a `PreCandidate` only if it carries that campaign's term,
+`m.term = r.term + 1` (`checked_add`: and `r.term + 1` does not overflow).  A pre-candidate IGNORES
+every other granted pre-vote response — `step` returns `Ok`, the state (votes, term, role, queue) is
+unchanged, no message is sent — whatever the term of the grant: `0`; below `r.term` (dropped by the
+term preamble, raft.rs:1416-1478); equal to `r.term` (the grant left over from the pre-campaign of
+the previous term, the case of F16); or above `r.term + 1` (the preamble passes a granted pre-vote
+response on without `become_follower`, raft.rs:1386-1398, and `step_candidate` drops it).  No
+hypothesis on `m.term` other than `hne` is needed. -/
+theorem C16_stale_prevote_grant_ignored (r : Raft) (m : Message)
+    (hs : r.state = .preCandidate) (hm : m.msgType = .msgRequestPreVoteResponse)
+    (hg : m.reject = false) (hne : ¬ (r.term < U64_MAX ∧ m.term = r.term + 1)) :
+    r.step m = .ok (r, none) := by
+  have hc : r.stepCandidate m = .ok (r, none) := by
+    unfold Raft.stepCandidate
+    simp only [hm, hs, hg]
+    simp [hne]
+  unfold Raft.step Raft.stepTerm
+  by_cases h0 : m.term = 0
+  · simp [h0, hm, hs, hc]
+  · by_cases hlt : r.term < m.term
+    · simp [h0, hlt, hm, hg, hs, hc]
+    · by_cases hgt : m.term < r.term
+      · simp [h0, hlt, hgt, hm]
+      · simp [h0, hlt, hgt, hm, hs, hc]
+
+/-- … the instance of F16: a grant of the pre-candidate's *own* term (sent in answer to the
+pre-campaign it ran one term earlier) is ignored -/
+theorem C16_stale_prevote_grant_ignored_same_term (r : Raft) (m : Message)
+    (hs : r.state = .preCandidate) (hm : m.msgType = .msgRequestPreVoteResponse)
+    (hg : m.reject = false) (ht : m.term = r.term) : r.step m = .ok (r, none) :=
+  C16_stale_prevote_grant_ignored r m hs hm hg (fun h => by omega)
+
+/-- … and any grant whose term is not `r.term + 1` -/
+theorem C16_stale_prevote_grant_ignored_of_ne (r : Raft) (m : Message)
+    (hs : r.state = .preCandidate) (hm : m.msgType = .msgRequestPreVoteResponse)
+    (hg : m.reject = false) (ht : m.term ≠ r.term + 1) : r.step m = .ok (r, none) :=
+  C16_stale_prevote_grant_ignored r m hs hm hg (fun h => ht h.2)
+
+/-- … conversely the grant of this pre-campaign, `m.term = r.term + 1`, is the one that is polled:
+`step` is `poll(m.from, MsgRequestPreVoteResponse, true)` followed by `maybe_commit_by_vote` -/
+theorem C16_fresh_prevote_grant_polled (r : Raft) (m : Message)
+    (hs : r.state = .preCandidate) (hm : m.msgType = .msgRequestPreVoteResponse)
+    (hg : m.reject = false) (hov : r.term < U64_MAX) (ht : m.term = r.term + 1) :
+    r.step m = (r.poll m.frm .msgRequestPreVoteResponse true).bind (fun (r, _) =>
+      (r.maybeCommitByVote m).bind (fun r => .ok (r, none))) := by
+  have hc : r.stepCandidate m = (r.poll m.frm .msgRequestPreVoteResponse true).bind (fun (r, _) =>
+      (r.maybeCommitByVote m).bind (fun r => .ok (r, none))) := by
+    unfold Raft.stepCandidate
+    simp only [hm, hs, hg]
+    simp [hov, ht]
+  unfold Raft.step Raft.stepTerm
+  simp [ht, hm, hg, hs, hc]
+
 /-! ### 4. A node that fails to gather a pre-vote quorum -/
 
 /-- a message that is not from a higher term (local messages have term 0) moves the term only by a
@@ -1046,16 +1127,21 @@ on (`become_pre_candidate` kept its term and vote, raft.rs:1199-1218) that steps
 from a higher term — rejected or granted pre-vote responses, vote requests, appends and heartbeats
 of its own term, stale messages (raft.rs:1416-1478), local messages, even another `MsgHup` — keeps
 its term exactly, as long as the pre-vote tally after the message is not `Won` (and its own
-pre-vote alone is not a quorum). -/
+pre-vote alone is not a quorum).  Since fix F16 the tally hypothesis is needed for *rejected*
+responses only (`hfail` now has the conjunct `m.reject = true`): a granted pre-vote response that
+is not from a higher term is never counted, whatever the tally would be
+(`C16_stale_prevote_grant_ignored`). -/
 theorem C16_failed_precandidate_keeps_term (r r' : Raft) (m : Message) (res : Option RaftError)
     (hs : r.state = .preCandidate) (hpv : r.preVote = true) (hle : ¬ r.term < m.term)
     (hself : ¬ selfQuorum r)
-    (hfail : ¬ (m.msgType = .msgRequestPreVoteResponse ∧
-                (r.prs.recordVote m.frm (!m.reject)).tallyVotes.2.2 = .won))
+    (hfail : ¬ (m.msgType = .msgRequestPreVoteResponse ∧ m.reject = true ∧
+                (r.prs.recordVote m.frm false).tallyVotes.2.2 = .won))
     (h : r.step m = .ok (r', res)) : r'.term = r.term := by
-  rcases step_not_higher hle h with c | ⟨_, c2, _, c4⟩ | ⟨c1, _, _, _, c5⟩
+  rcases step_not_higher hle h with c | ⟨_, c2, _, c4, c6⟩ | ⟨c1, _, _, _, c5⟩
   · exact c
-  · exact absurd ⟨c2, c4⟩ hfail
+  · rcases c6 with c6 | c6
+    · rw [c6] at c4; exact absurd ⟨c2, c6, c4⟩ hfail
+    · omega
   · rcases c1 with c1 | ⟨_, c1⟩
     · rcases c5 with c5 | c5 | c5
       · rw [c1] at c5; cases c5
@@ -1073,7 +1159,7 @@ theorem C16_rejected_prevote_response_keeps_term (r r' : Raft) (m : Message) (re
     (hrej : m.reject = true) (hle : ¬ r.term < m.term)
     (hfail : (r.prs.recordVote m.frm false).tallyVotes.2.2 ≠ .won)
     (h : r.step m = .ok (r', res)) : r'.term = r.term := by
-  rcases step_not_higher hle h with c | ⟨_, _, _, c4⟩ | ⟨c1, _⟩
+  rcases step_not_higher hle h with c | ⟨_, _, _, c4, _⟩ | ⟨c1, _⟩
   · exact c
   · rw [hrej] at c4; exact absurd c4 hfail
   · rw [hm] at c1; rcases c1 with c1 | ⟨c1, _⟩ <;> cases c1
@@ -1143,6 +1229,17 @@ example : ∃ r' res, preCand1.step
     { msgType := .msgRequestPreVoteResponse, term := 4, frm := 2, reject := false } = .ok (r', res) ∧
     r'.term = preCand1.term + 1 ∧ r'.state = .candidate :=
   ⟨_, _, by rfl, by rfl, by rfl⟩
+-- (2) fix F16: the same pre-candidate (term 3, one grant short of the quorum) ignores a stale grant —
+-- of its own term 3 (left over from the pre-campaign of term 2), or of term 9 — state unchanged, no
+-- message; the grant of term 4 = term + 1 from the same peer completes the quorum: candidate at term 4
+example :
+    preCand1.step { msgType := .msgRequestPreVoteResponse, term := 3, frm := 2, reject := false }
+      = .ok (preCand1, none) ∧
+    preCand1.step { msgType := .msgRequestPreVoteResponse, term := 9, frm := 2, reject := false }
+      = .ok (preCand1, none) ∧
+    (preCand1.step { msgType := .msgRequestPreVoteResponse, term := 4, frm := 2, reject := false }).bind
+      (fun (r', res) => .ok (r'.state, r'.term, res))
+      = .ok (StateRole.candidate, preCand1.term + 1, none) := by decide
 -- (4) a rejection keeps it where it is
 example : ∃ r' res, preCand1.step
     { msgType := .msgRequestPreVoteResponse, term := 3, frm := 2, reject := true } = .ok (r', res) ∧
